@@ -548,6 +548,7 @@ type seed struct {
 	id     byte
 	attrs  []attr
 	secret int
+	full   bool // complete 0..65535 length-field sweep (otherwise the reduced one)
 }
 
 var secrets = [][]byte{
@@ -564,21 +565,69 @@ var secrets = [][]byte{
 		b[63] = 0 // leading and trailing NUL: a secret is a byte string, not a C string
 		return b
 	}(),
+	// secrets whose edge octets are "white space" to text-minded code: the secret is an opaque octet string
+	[]byte(" lead-space"),
+	[]byte("trail-newline\n"),
+	[]byte("\t\vboth-edges\f\r"),
+	[]byte("\xc2\xa0utf8-space-edges\xc2\x85"),
 }
+
+// baseSecrets: the secrets of the full seed product; the rest are edge-octet secrets run on a reduced product.
+const baseSecrets = 3
+
+func rpt(c byte, n int) []byte { return bytes.Repeat([]byte{c}, n) }
 
 var attrSets = [][]attr{
 	nil,
 	{{44, []byte(liveSession)}},
 	{{1, []byte("alice")}, {44, []byte(liveSession)}, {8, []byte{10, 0, 0, 5}}, {11, []byte("gold")}},
+	// unknown sessions with long identifiers: the NAK echoes them in a Reply-Message far beyond 200 bytes
+	{{44, rpt('L', 190)}},
+	{{1, rpt('u', 253)}, {44, rpt('S', 253)}},
 }
 
-func seeds() []seed {
+var attrSetNames = []string{"0", "1", "4", "1x190", "2x253"}
+
+// seeds: the full product 3 base secrets x 2 codes x {0,1,4} attributes x ids {0,1,255}; plus long-attribute
+// requests and edge-octet secrets on a reduced product (quick: id 1 and, for the long ones, secret 0 only).
+func seeds(thorough bool) []seed {
 	var out []seed
-	for si := range secrets {
+	add := func(si int, code byte, ai int, id byte, full bool) {
+		out = append(out, seed{fmt.Sprintf("code%d/attrs%s/id%d/secret%d", code, attrSetNames[ai], id, si), code, id, attrSets[ai], si, full})
+	}
+	ids := []byte{0, 1, 255}
+	for si := 0; si < baseSecrets; si++ {
 		for _, code := range []byte{43, 40} {
-			for ai, as := range attrSets {
-				for _, id := range []byte{0, 1, 255} {
-					out = append(out, seed{fmt.Sprintf("code%d/attrs%d/id%d/secret%d", code, []int{0, 1, 4}[ai], id, si), code, id, as, si})
+			for ai := 0; ai < 3; ai++ {
+				for _, id := range ids {
+					// quick tier: the complete length sweep runs on 2 seeds (CoA with 4 attributes, Disconnect with 1; id 1, secret 0)
+					full := thorough || (id == 1 && si == 0 && ((code == 43 && ai == 2) || (code == 40 && ai == 1)))
+					add(si, code, ai, id, full)
+				}
+			}
+		}
+	}
+	xids := []byte{1}
+	if thorough {
+		xids = ids
+	}
+	for si := 0; si < baseSecrets; si++ {
+		if !thorough && si > 0 {
+			break
+		}
+		for _, code := range []byte{43, 40} {
+			for ai := 3; ai < len(attrSets); ai++ {
+				for _, id := range xids {
+					add(si, code, ai, id, false)
+				}
+			}
+		}
+	}
+	for si := baseSecrets; si < len(secrets); si++ {
+		for _, code := range []byte{43, 40} {
+			for ai := 0; ai < 3; ai++ {
+				for _, id := range xids {
+					add(si, code, ai, id, false)
 				}
 			}
 		}
@@ -784,6 +833,21 @@ func families() []family {
 				}
 			}
 		}},
+		{name: "wrong-secret", chunks: 1, gen: func(p, s []byte, _ int, _ bool, emit func(stim)) {
+			// the same request signed with keys that text-minded handling of the secret would confuse with it
+			flip := clone(s)
+			flip[len(flip)-1] ^= 1
+			alts := [][]byte{bytes.TrimSpace(s), bytes.Trim(s, "\x00"), bytes.Trim(s, "\x00 \t\r\n\v\f"), append(clone(s), '\n'), append([]byte{' '}, s...),
+				append(clone(s), 0), s[1:], s[:len(s)-1], {}, flip, bytes.ToUpper(s), bytes.ToLower(s)}
+			for i, a := range alts {
+				if bytes.Equal(a, s) {
+					continue
+				}
+				q := clone(p)
+				resign(q, a, true)
+				emit(stim{fmt.Sprintf("signed with variant %d of the secret (%q)", i, firstBytes(a, 12)), q})
+			}
+		}},
 		{name: "short", perSecret: true, chunks: 4, gen: func(p, s []byte, chunk int, _ bool, emit func(stim)) {
 			if chunk == 0 {
 				emit(stim{"empty datagram", []byte{}})
@@ -878,7 +942,10 @@ func TestCheck(t *testing.T) {
 			continue
 		}
 		seenSecret := map[int]bool{}
-		for _, sd := range seeds() {
+		for _, sd := range seeds(run.Thorough()) {
+			if f.perSecret && sd.secret >= baseSecrets {
+				continue
+			}
 			if f.perSecret {
 				if seenSecret[sd.secret] {
 					continue
@@ -943,7 +1010,7 @@ func TestCheck(t *testing.T) {
 				p := buildRequest(jb.sd.code, jb.sd.id, jb.sd.attrs, e.secret)
 				// quick tier: the complete 0..65535 length sweep runs on 2 seeds (CoA with 4 attributes,
 				// Disconnect with 1; id 1, secret 0), a reduced one on the other 52
-				full := run.Thorough() || (jb.sd.id == 1 && jb.sd.secret == 0 && ((jb.sd.code == 43 && len(jb.sd.attrs) == 4) || (jb.sd.code == 40 && len(jb.sd.attrs) == 1)))
+				full := jb.sd.full
 				var batch []stim
 				batchBytes := 0
 				flush := func() {
@@ -1024,7 +1091,7 @@ func TestCheck(t *testing.T) {
 		for _, k := range ks {
 			note += fmt.Sprintf("%s=%d ", k, st.stages[k])
 		}
-		run.AddPart(report.Part{Name: "coa-listener/" + n, Engine: "D:bounded-exhaustive-inputs+fence", Bound: fmt.Sprintf("%d seeds (2 codes x {0,1,4} attrs x ids {0,1,255} x 3 secrets); stimuli=%d", len(seeds()), st.n),
+		run.AddPart(report.Part{Name: "coa-listener/" + n, Engine: "D:bounded-exhaustive-inputs+fence", Bound: fmt.Sprintf("%d seeds (3 secrets x 2 codes x {0,1,4} attrs x ids {0,1,255}; + long-attribute requests and 4 edge-octet secrets on a reduced product); stimuli=%d", len(seeds(run.Thorough())), st.n),
 			Exhaustive: !st.capped, Note: "reference verdicts: " + strings.TrimSpace(note)})
 		run.AddEvals(st.n, st.accepted)
 		fmt.Printf("part coa-listener/%-18s stimuli=%-8d authentic=%-7d %s\n", n, st.n, st.accepted, strings.TrimSpace(note))
